@@ -113,9 +113,22 @@ def verify_target(cm: str, target: str, timeout_ms: int = 10000, repo: str | Non
             res["wall_s"] = time.time() - t0
             return res
         agg = collections.OrderedDict()
+        cross = {"queries": 0, "verdicts": {}, "disagree": []}
         for ob in obs:
             if ob.status is None:
                 ob.status, ob.backend, ob.time, ob.model = smt.check(ob.pc, ob.goal, timeout_ms, want_model=True)
+                if os.environ.get("PYVC_CROSS") == "1" and ob.status == "unsat":
+                    # cross-solver agreement (thorough tier): no other solver may find the discharged query satisfiable
+                    try:
+                        verdicts = smt.run_cli_all(smt.to_smt2(list(ob.pc) + [z3.Not(ob.goal)]), 5)
+                    except Exception:  # noqa: BLE001
+                        verdicts = {}
+                    cross["queries"] += 1
+                    for name, v in verdicts.items():
+                        d = cross["verdicts"].setdefault(name, {"unsat": 0, "unknown": 0, "sat": 0})
+                        d[v] += 1
+                        if v == "sat":
+                            cross["disagree"].append([ob.oid, name])
             res["solver_s"] += ob.time or 0.0
             a = agg.setdefault(
                 ob.oid,
@@ -142,6 +155,7 @@ def verify_target(cm: str, target: str, timeout_ms: int = 10000, repo: str | Non
                 a["trace"] = ob.trace[-10:]
                 a["line"] = ob.line
         res["obligations"] = agg
+        res["cross"] = cross
         res["undecided"] = [list(u) for u in e.undecided]
         res["paths"] = e.paths
         res["dropped"] = e.dropped
